@@ -235,7 +235,7 @@ CHECKS = {
         'behavioural claim — renaming changes nothing else — by renaming runs: six grammar templates x one identifier at a time renamed '
         'into every temporary look-alike, runtime scratch names, builtins, constructor names, plus fresh identifiers, compared with '
         'the plain grammar on every input and with the Coq model.',
-   note=TB + 'partial: the theorems cover function-level names and the generator's numbered module-level functions; the static scan checks on every run that no module-level name the generator defines has the shape X/_parse_X/_try_X. Known findings (each listed by identifier): locals named len/slice, rules named like builtins the runtime calls, templates named like expression constructors. The renaming-equivariance theorem of the expression model is not proved.',
+   note=TB + 'partial: the theorems cover function-level names and the numbered module-level functions of the generator; the static scan checks on every run that no module-level name the generator defines has the shape X/_parse_X/_try_X. Known findings (each listed by identifier): locals named len/slice, rules named like builtins the runtime calls, templates named like expression constructors. The renaming-equivariance theorem of the expression model is not proved.',
    technique='Coq hygiene theorem on a namespace model + static scan of emitted code + differential renaming runs',
    ref='DESIGN.md §6 C20'),
 }
